@@ -21,7 +21,7 @@ def layerOf (st : St) (p : Path) : String :=
   match st.fs p with
   | none => "nofile"
   | some f =>
-    match cachedLoad cfg st p f.mtime with
+    match cachedLoad cfg st p (reported cfg f.mtime) with
     | some _ => if (st.mem p).isSome then "memory" else "pickle"
     | none =>
       match (if cfg.diff then st.mem p else none) with
